@@ -225,6 +225,7 @@ func registerAll() {
 	ev.Register("wrap", single)
 	ev.Register("pairs", pair)
 	ev.Register("pairs-random", pair)
+	ev.Register("after-refusal", afterRefusal)
 }
 
 // all strings over the number alphabet up to a length bound
@@ -358,6 +359,53 @@ func TestPropWrap(t *testing.T) {
 	ev.Count("wrap", n)
 	if bad > 0 {
 		t.Errorf("VIOLATION-CANDIDATE wrap: %d texts", bad)
+	}
+}
+
+// ---- every kind of refused text followed by every kind of number: the answer for a number does not
+// depend on the call before it
+
+type After struct {
+	Refused string `json:"refused"`
+	Then    string `json:"then"`
+}
+
+func afterRefusal(c After) *ev.Verdict {
+	if esc := sut.Trap("NewNumber", func() { _, _ = jjson.NewNumber(jbytes.NewBytes(c.Refused)) }); esc != nil {
+		return ev.V("panic:NewNumber:"+esc.Frame, "NewNumber(%q) panicked: %s", c.Refused, esc.Value)
+	}
+	if v := single(c.Then); v != nil {
+		v.Sig = "after-refusal:" + v.Sig
+		v.Detail = fmt.Sprintf("after NewNumber(%q): %s", c.Refused, v.Detail)
+		return v
+	}
+	return nil
+}
+
+func TestPropAfterRefusal(t *testing.T) {
+	registerAll()
+	if i, _ := ev.Shard(); i != 0 {
+		t.Skip("not sharded: runs in the first process only")
+	}
+	ev.KeepFirst("after-refusal")
+	refused := []string{"1e1000001", "-2.5E-1000001", "7e99999999999999999999", "1e", "1e+", "-", "1.", "x", "", "01", "1..2", "--1", "1e5x", "0x10", "1e-", ".5"}
+	then := []string{"-7", "7", "12", "0.5", "-0.5", "1e2", "100", "0", "-0", "3.250", "1E-2", "12345678901234567890", "0.000"}
+	var n, bad int64
+	for _, r := range refused {
+		for _, v := range then {
+			c := After{Refused: r, Then: v}
+			n++
+			ev.NonTrivial("after-refusal", r+"\x00"+v)
+			if res := afterRefusal(c); res != nil && ev.Report("after-refusal", c, res) {
+				bad++
+			}
+		}
+	}
+	ev.Count("after-refusal", n)
+	ev.Sample("after-refusal", After{Refused: "1e1000001", Then: "-7"})
+	ev.Exhaustive("after-refusal", fmt.Sprintf("%d refused texts x %d numbers", len(refused), len(then)))
+	if bad > 0 {
+		t.Errorf("VIOLATION-CANDIDATE after-refusal: %d", bad)
 	}
 }
 
